@@ -742,6 +742,12 @@ func init() {
 			if p == "C08" {
 				n = map[string]int{"quick": 400, "thorough": 5000, "search": 2500}[tier]
 			}
+			if p == "C09" {
+				// first of all: the listed witnesses of F26, literally (c09.go)
+				for _, w := range c09Witnesses {
+					c09ProbeWitness(r, w)
+				}
+			}
 			var jobs []*c08SeqJob
 			for i := 0; i < n && !expired(); i++ {
 				jobs = append(jobs, c08SeqPrepare(rng.Int63(), p))
